@@ -90,6 +90,11 @@ CHECKS = {
             "eager, injected deploy failures; every multiset of 2..4 requests in all orders and overlaps; oracle replays the "
             "per-instance call log against the five clauses of the property.",
             "Fake connectors; <= 4 requests, <= 3 deployments.", "3/C26"),
+    "C27": ("model_checking", "E1", E1 + "; virtual timers and TTL cache",
+            "Real SlurmConnector over an in-process fake Slurm host: 1..4 concurrent run() calls (+undeploy) in every order and "
+            "overlap, every command reply and job finish a gate, polling sleeps virtual timers, squeue replies possibly stale; "
+            "run() returns only after its job left the queue with its own output/exit code; undeploy cancels exactly the queued jobs.",
+            "Fake host answers SlurmConnector's exact command lines; TTL cache on the virtual clock.", "3/C27"),
     "C28": ("exploration", "E3", E3,
             "All sets of <= 3 step and <= 2 port bindings over the 15 paths of depth <= 3, queried for all 31 paths of depth <= 4; "
             "all 64 wraps assignments x workdir placements incl. cycles.",
